@@ -98,6 +98,8 @@ func VerifC19Middleware() {
 			fallbackUsed = true
 			ctx.AbortWithStatus(418)
 		}))
+	} else if rt.Bool("nilFallback") {
+		opts = append(opts, WithBlockFallback(nil)) // an explicitly nil fallback counts as not configured
 	}
 	mw := SentinelMiddleware(opts...)
 	wr := &verifWriter{}
